@@ -17,11 +17,15 @@
      yielded either but its children are still scheduled;
    - after the yield exactly the children of the handle's THEN-current AST are scheduled, in front of what was already
      scheduled: the replacement's children after a replace, nothing after a remove or send(False).
+   - (models/WalkLeave.v: the on='leave' and on='both' loops on a tree that is NOT modified, with the caller's send()
+     decisions; tied to the real generator by correspondence) on='leave' yields the bottom-up order and on='both' brackets
+     every node; send(True) when a node is left walks its children again, then the node, then what was queued behind it;
+     send(False) on entry skips the children but not the leave.
    NOT PROVED: termination (holds for finitely many mutations; the oracle bounds the steps), the on='leave'/'both'
-   variants, scope walks, search/sub consumers, that replace/remove produce legal well-formed heaps (evaluated on every
+   variants UNDER MUTATION (oracle only), scope walks, search/sub consumers, that replace/remove produce legal well-formed heaps (evaluated on every
    observed heap instead), C01 of the final tree. Decided by py/props/C15.py (partial). *)
 From Coq Require Import List Bool Arith.
-From PF Require Import models.WalkMut proofs.WalkMutProofs.
+From PF Require Import models.WalkMut proofs.WalkMutProofs models.WalkLeave proofs.WalkLeaveProofs.
 Import ListNotations.
 
 Theorem C15_no_node_yielded_twice : forall fuel h root advs,
@@ -45,6 +49,33 @@ Theorem C15_invariant_preserved_by_any_legal_mutation : forall h h' d s,
   let '(h2, s2, _) := iter h (h', d) s in Inv h2 s2 /\ WF h2 /\ legal h h2.
 Proof. exact iter_inv. Qed.
 Print Assumptions C15_invariant_preserved_by_any_legal_mutation.
+
+(* ---- on='leave' / on='both' and send() on an unmodified tree (models/WalkLeave.v) ---- *)
+Theorem C15_leave_is_bottom_up : forall t ds f, quiet (size t) ds ->
+  lrun (lsteps t + f) [E t] ds [] = Some (post t, skipn (size t) ds).
+Proof. exact leave_is_bottom_up. Qed.
+Print Assumptions C15_leave_is_bottom_up.
+
+Theorem C15_leave_send_true_walks_children_again_then_node : forall t st ds out f, quiet (size t) ds ->
+  lrun (S (lstepss (children t) + S f)) (L t :: st) (Some true :: ds) out =
+  lrun f st (skipn (size t) ds) (out ++ [label t] ++ post t).
+Proof. exact leave_resend. Qed.
+Print Assumptions C15_leave_send_true_walks_children_again_then_node.
+
+Theorem C15_both_brackets : forall t ds f, silent (2 * size t) ds ->
+  brun (bsteps t + f) [E t] ds [] = Some (bracket t, skipn (2 * size t) ds).
+Proof. exact both_brackets. Qed.
+Print Assumptions C15_both_brackets.
+
+Theorem C15_both_send_false_skips_children_not_the_leave : forall t st ds out f,
+  brun (S (S f)) (E t :: st) (Some false :: None :: ds) out = brun f st ds (out ++ [(label t, false); (label t, true)]).
+Proof. exact both_skip. Qed.
+Print Assumptions C15_both_send_false_skips_children_not_the_leave.
+
+Theorem C15_both_send_true_on_leaving_enters_again : forall t st ds out f, silent (2 * size t) ds ->
+  brun (S (bsteps t + f)) (L t :: st) (Some true :: ds) out = brun f st (skipn (2 * size t) ds) (out ++ (label t, true) :: bracket t).
+Proof. exact both_resend. Qed.
+Print Assumptions C15_both_send_true_on_leaving_enters_again.
 
 (* non-vacuity: root 0 with children 1, 2; while 1 is yielded the caller replaces 2 by a new object 3 (same handle) and
    1 by 4 with a new child 5: 2 is skipped, 5 is walked next, nothing is yielded twice *)
